@@ -13,7 +13,9 @@ import outcome, corpus, render
 
 TOKENS = ["PRINT", "IF", "THEN", "ELSE", "END", "FOR", "TO", "NEXT", "STEP", "WHILE", "WEND", "DO", "LOOP", "SELECT", "CASE", "DIM", "AS",
           "INTEGER", "SUB", "FUNCTION", "GOTO", "ON", "ERROR", "RESUME", "CONST", "AND", "NOT", "MOD", "A", "B%", "C$", "X.Y", "1", "2.5",
-          "&HFF", '"s"', '"', "'", "(", ")", ",", ";", "=", "+", "-", ":", "#", " "]
+          "&HFF", '"s"', '"', "'", "(", ")", ",", ";", "=", "+", "-", ":", "#", " ",
+          "\u00e9", "\u00f1x", "x\u00f1", "Str", "Len", "A(1)", "R.X(1)", ".", "$", "%", "1E5", "&H", "_"]
+NTOK_CFG = 61      # the constant NTok of Soup_*.cfg
 EOLS = ["\r\n", "\n", "\r"]
 
 LEX = re.compile(r'"[^"\r\n]*"?|\r\n|\r|\n|[ \t]+|&[HhOo][0-9A-Fa-f]*|[0-9]+\.?[0-9]*|[A-Za-z][A-Za-z0-9.]*[%&!#$]?|<=|>=|<>|.', re.S)
@@ -60,6 +62,7 @@ def mutate(toks, op, i):
 
 
 def run(tier, replay):
+    assert len(TOKENS) == NTOK_CFG, "TOKENS and NTok of Soup_*.cfg are out of step"
     rep = Reporter("C07", tier, "exploration")
     pool = Pool()
     rng = random.Random(seed())
@@ -93,6 +96,14 @@ def run(tier, replay):
                 _, a, b, op = ln.split(" ")
                 toks = mutate(sd[int(a) - 1], op, int(b))
                 texts.append(("mut:" + op, "".join(toks)))
+        # grammar-aware space: statement templates x slot fillers (Slots.tla)
+        import slots
+        sl, s3, t3, cmd3 = slots.enumerate_slots(os.path.join(d, "tlc_slots"))
+        states += s3
+        trans += t3
+        rng.shuffle(sl)
+        for (tn, fa, fb) in sl[: (250000 if tier == "thorough" else 30000)]:
+            texts.append(("slot:" + tn, slots.program(tn, fa, fb)))
         # byte-level truncation of a few seeds, random bytes decoded as UTF-8, deep nesting, odd line endings
         for s in sd[:6]:
             t = "".join(s)
@@ -141,7 +152,7 @@ def run(tier, replay):
         classes[c] = classes.get(c, 0) + 1
     coverage = {
         "evaluations": len(texts), "distinct_nontrivial": len({t for c, t in texts}),
-        "rule": "TLC enumerates all token soups up to length 2 (3) over a 48-token alphabet (each rendered glued and blank-separated) "
+        "rule": "TLC enumerates all token soups up to length 2 (3) over a 61-token alphabet (each rendered glued and blank-separated) "
                 "and every delete / duplicate / swap / truncate at every token of the seed programs; plus byte-level truncations, "
                 "seeded random byte strings decoded as UTF-8, random token strings with mixed line endings and nestings up to depth "
                 "200; distinct by text",
